@@ -82,12 +82,12 @@ CLAIMS.update({
 
 CLAIMS.update({
     "C16": dict(
-        text="Static, narrow structural claim: export accessors are unfiltered copies; restore_packets performs, per stored-packet variant, the same bookkeeping an accepted send performs (id registered, awaiting set equal to the one the send handler uses for that kind/QoS, added to the store, QoS 0 skipped, failed registration not stored); restored exchanges are counted when re-sent. Not decided: equivalence with the uncrashed run at every crash point.",
+        text="Static, narrow structural claim: export accessors are unfiltered copies; restore_packets performs, per stored-packet variant, the same bookkeeping an accepted send performs (id registered, awaiting set equal to the one the send handler uses for that kind/QoS, added to the store, QoS 0 skipped, failed registration not stored); restored exchanges are counted when re-sent; the connect / resume path (initialize, CONNECT handlers without clean start, close of a stored session) leaves the restored store, handled-id set and awaited-acknowledgement sets untouched; the store keeps acceptance order (no order-disturbing map operation), so export and retransmission are in the original order. Not decided: equivalence with the uncrashed run at every crash point.",
         note=TB,
         technique="MIR abstract interpretation: sibling-agreement between restore path and send path",
         ref="3/C16"),
     "C18": dict(
-        text="Static, exact: each of the 14 property validators is explored over every list of one and two properties of each of the 27 kinds (counters constant-folded), giving the full placement and multiplicity table, compared cell by cell with MQTT 5.0 Table 2-4; forbidden values from the decision atoms of every numeric property's new()/parse(); validator shared and propagated by builder and parser. Whole statement.",
+        text="Static, exact: each of the 14 property validators is evaluated exactly on concrete lists [v], [v, v], [v, UserProperty], [UserProperty, v] (and companions) of the 27 kinds - iteration followed element by element whatever the idiom (loops, all / any / filter().count() / try_for_each), giving the full placement and multiplicity table, compared cell by cell with MQTT 5.0 Table 2-4; forbidden values from the decision atoms of every numeric property's new()/parse(); validator shared and propagated by builder and parser. Whole statement.",
         note=TB + "14 property-carrying locations exist in the code (CONNECT, will, CONNACK, PUBLISH, PUBACK, PUBREC, PUBREL, PUBCOMP, SUBSCRIBE, SUBACK, UNSUBSCRIBE, UNSUBACK, DISCONNECT, AUTH): 27 x 14 cells.",
         technique="exact decision-table extraction from MIR vs transcribed specification table",
         ref="3/C18"),
